@@ -39,9 +39,17 @@ var (
 )
 
 type spec struct {
-	servers  []int        // indices into the pool
-	disabled map[int]bool // by pool index
+	servers  []int        // distinct indices into the pool, in order of first occurrence
+	disabled map[int]bool // by pool index: some entry of the server list marks the endpoint disabled
 	subsets  [2][]int     // upstream subset per policy (nil = all)
+	// entries is the server list as written, if it differs from one entry per server: an endpoint may be listed twice
+	// (validation does not refuse that), with the same or with conflicting disabled flags
+	entries []entry
+}
+
+type entry struct {
+	idx int
+	dis bool
 }
 
 func (s spec) String() string {
@@ -52,6 +60,9 @@ func (s spec) String() string {
 		}
 	}
 	sort.Ints(d)
+	if s.entries != nil {
+		return fmt.Sprintf("servers=%v disabled=%v (as written, {index disabled}: %v) subsetPods=%v subsetRest=%v", s.servers, d, s.entries, s.subsets[0], s.subsets[1])
+	}
 	return fmt.Sprintf("servers=%v disabled=%v subsetPods=%v subsetRest=%v", s.servers, d, s.subsets[0], s.subsets[1])
 }
 
@@ -65,6 +76,17 @@ func (s spec) object() *proxyv1alpha1.UpstreamCluster {
 		if s.disabled[i] {
 			b := true
 			c.Spec.Servers[j].Disabled = &b
+		}
+	}
+	if s.entries != nil {
+		c.Spec.Servers = nil
+		for _, e := range s.entries {
+			srv := proxyv1alpha1.UpstreamClusterServer{Endpoint: pool.Upstreams[e.idx].URL}
+			if e.dis {
+				b := true
+				srv.Disabled = &b
+			}
+			c.Spec.Servers = append(c.Spec.Servers, srv)
 		}
 	}
 	pods := proxyv1alpha1.DispatchPolicy{Strategy: proxyv1alpha1.RoundRobin, Rules: []proxyv1alpha1.DispatchPolicyRule{{Verbs: []string{"*"}, APIGroups: []string{"*"}, Resources: []string{"pods"}}}}
@@ -85,6 +107,30 @@ func genSpec(t *rapid.T, label string) spec {
 	for _, i := range s.servers {
 		if rapid.IntRange(0, 3).Draw(t, fmt.Sprintf("%s.disabled[%d]", label, i)) == 0 {
 			s.disabled[i] = true
+		}
+	}
+	if rapid.IntRange(0, 4).Draw(t, label+".duplicateEntries") == 0 {
+		// some endpoints are listed twice; an endpoint counts as disabled if any of its entries says so
+		for _, i := range s.servers {
+			s.entries = append(s.entries, entry{i, s.disabled[i]})
+		}
+		for k, n := 0, rapid.IntRange(1, 2).Draw(t, label+".ndup"); k < n; k++ {
+			i := rapid.SampledFrom(s.servers).Draw(t, fmt.Sprintf("%s.dup[%d]", label, k))
+			e := entry{i, rapid.Bool().Draw(t, fmt.Sprintf("%s.dupDisabled[%d]", label, k))}
+			at := rapid.IntRange(0, len(s.entries)).Draw(t, fmt.Sprintf("%s.dupAt[%d]", label, k))
+			s.entries = append(s.entries[:at], append([]entry{e}, s.entries[at:]...)...)
+			if e.dis {
+				s.disabled[i] = true
+			}
+		}
+		// first occurrence order
+		seen := map[int]bool{}
+		s.servers = nil
+		for _, e := range s.entries {
+			if !seen[e.idx] {
+				seen[e.idx] = true
+				s.servers = append(s.servers, e.idx)
+			}
 		}
 	}
 	for p := 0; p < 2; p++ {
@@ -231,7 +277,7 @@ func (w *world) judge(t *rapid.T, r result, policy int, allowed []map[int]bool, 
 }
 
 func TestPropEndpointSelection(t *testing.T) {
-	sub := stats.NewSub("spec-and-health-histories", "rapid state machine: ops spec update (servers subset of the pool in any order, disabled flags, two policies with / without upstream subset), health flip of an upstream (then trigger + wait), n sequential requests for a policy, a burst of requests racing with a spec update, health-check trigger on a disabled endpoint; oracle: a forwarded request reached an endpoint that is in the server list, in the matched policy's subset, enabled and healthy (before or after the update for racing requests), and the answer came from that endpoint; no eligible endpoint => 503 and nothing forwarded; a disabled endpoint gets no proxied request and no probe later than 300 ms after the disabling sync; probes resume on re-enable; non-trivial = >= 1 health flip / disable / enable / subset change followed by >= 1 request; distinct by FNV-64 of the op trace")
+	sub := stats.NewSub("spec-and-health-histories", "rapid state machine: ops spec update (servers subset of the pool in any order, disabled flags, one time in five with endpoints listed twice with equal or conflicting flags - disabled if any entry says so, two policies with / without upstream subset), health flip of an upstream (then trigger + wait), n sequential requests for a policy, a burst of requests racing with a spec update, health-check trigger on a disabled endpoint; oracle: a forwarded request reached an endpoint that is in the server list, in the matched policy's subset, enabled and healthy (before or after the update for racing requests), and the answer came from that endpoint; no eligible endpoint => 503 and nothing forwarded; a disabled endpoint gets no proxied request and no probe later than 300 ms after the disabling sync; probes resume on re-enable; non-trivial = >= 1 health flip / disable / enable / subset change followed by >= 1 request; distinct by FNV-64 of the op trace")
 	stats.Check(t, stats.N(40, 300), func(t *rapid.T) {
 		g := gwbox.NewGateway()
 		defer g.Close()
